@@ -62,7 +62,7 @@ plan('C07',
          'decoding of generated documents is judged for totality, parent links and re-encodability only: no entity expansion, namespace, CDATA, comment or PI semantics is demanded',
          'termination is judged by the runner\'s per-case watchdog (40 s, re-run once)'])
 
-T('C07', 'model-based round-trip monitor (generator DOM compared through the public accessors) + parent-link tree walk on every returned tree + grammar/mutation/truncation/raw-byte workloads on exact-size heap inputs under ASan/UBSan/LSan',
+T('C07', 'model-based round-trip monitor (generator DOM compared through the public accessors) + parent-link tree walk on every returned tree + grammar/mutation/truncation/raw-byte workloads on exact-size heap inputs  under ASan/UBSan/LSan, plus first-use decodes from several threads under TSan',
   'Runs the real Xml::encode/decode on generated DOM trees to depth 12 (compact, and indented for sole-child text) and compares tags, attributes, child order and text with the generator\'s model up to text merging '
   'and whitespace-only text; walks every tree decode returns (from accepted documents, mutants, all prefixes of short documents, raw bytes, encoder outputs) checking child.parent() == container; sanitizers and a '
   'watchdog judge memory safety and termination. Reports counts of lexical situations, truncation offsets per lexical region, depth histogram and parent links checked.',
